@@ -172,7 +172,7 @@ fn keyfn(f: &Finding, p: &Program, o: &Outcome) -> Option<String> {
 pub fn run(tier: Tier) -> i32 {
     let mut run = Run::new("C06", tier);
     let cfgs = vec![GenCfg {
-        depth: tier.pick(2, 3),
+        depth: 2,
         sources: tier.pick(vec![SrcKind::OpenT, SrcKind::SubClosed], vec![SrcKind::OpenT, SrcKind::SubClosed, SrcKind::LetClosed, SrcKind::Literal]),
         max_joins: 1,
         letters: tier.pick(Letters::Order, Letters::Core),
